@@ -44,6 +44,10 @@ class RegexReader:
             self):
         if self._is_surrounded_by_parenthesis():
             self._components = self._components[1:-1]
+            if not self._components:
+                # An empty pair of parentheses
+                raise MisformedRegexError(WRONG_PARENTHESIS_MESSAGE,
+                                          self._regex)
             self._remove_useless_extreme_parenthesis_from_components()
 
     def _is_surrounded_by_parenthesis(self):
